@@ -179,7 +179,7 @@ pub fn run(ctx: &Ctx) -> ! {
     let mut rep = Report::new(
         ctx,
         "fault_enumeration",
-        "both clients (blocking ureq; async reqwest on a tokio runtime) against a hand-written loopback HTTP/1.1 peer. Request side: requests x payload {none, 1 B, 70 000 B, 70 000 B from a blocking source that reports Interrupted three times (, 3 MiB from a fragmenting source)} x client configuration {none, 1-3 custom headers incl. user-agent override, basic auth with 4 credential shapes} x target path {/, /printers/x, /a%20b?q=1&r=2} x scheme {http, ipp} -> exactly one connection, POST, exact target, Host, content-type, headers, Basic credentials, body = request + payload (decoded by R1). Response side: responses x trailing data {none, 3 B, 70 000 B} x framing {content-length, chunked, close-delimited} x write plan {one write, one byte per write, EVERY two-piece split}. Failures: every HTTP status 400-599 with and without an IPP body; connection cut after EVERY offset of header+attributes under each framing and inside the HTTP head; stalled server with and without request_timeout. History: two sequential sends through one client value with the first exchange ending in 8 different ways (ok, 500, 404 with IPP body, cut in attributes, cut in head, chunked, close-delimited, IPP error status): the second must be one fresh POST with its own response. Concurrency: N = 2, 3 (4) senders through one client, the peer collects all N requests and answers in EVERY one of the N! orders. distinct = exchange script; non-trivial = exchange with a fault, fragmentation or non-default configuration",
+        "both clients (blocking ureq; async reqwest on a tokio runtime) against a hand-written loopback HTTP/1.1 peer. Request side: requests x payload {none, 1 B, 70 000 B, 70 000 B from a blocking source that reports Interrupted three times (, 3 MiB from a fragmenting source)} x client configuration {none, 1-3 custom headers incl. user-agent override, basic auth with 4 credential shapes} x target path {/, /printers/x, /a%20b?q=1&r=2} x scheme {http, ipp} -> exactly one connection, POST, exact target, Host, content-type, headers, Basic credentials, body = request + payload (decoded by R1). A request object serialised once (to_bytes), then changed (header fields, attributes, payload), then sent must go out in its current state. Response side: responses x trailing data {none, 3 B, 70 000 B} x framing {content-length, chunked, close-delimited} x write plan {one write, one byte per write, EVERY two-piece split}. Failures: every HTTP status 400-599 with and without an IPP body; connection cut after EVERY offset of header+attributes under each framing and inside the HTTP head; stalled server with and without request_timeout. History: two sequential sends through one client value with the first exchange ending in 8 different ways (ok, 500, 404 with IPP body, cut in attributes, cut in head, chunked, close-delimited, IPP error status): the second must be one fresh POST with its own response. Concurrency: N = 2, 3 (4) senders through one client, the peer collects all N requests and answers in EVERY one of the N! orders. distinct = exchange script; non-trivial = exchange with a fault, fragmentation or non-default configuration",
     );
     rep.assume("interleavings inside hyper / tokio / ureq are not under a controlled scheduler; send(&self) builds a fresh agent and connection per call, so the only cross-request channel is the peer's answer order, which is enumerated");
     rep.assume("verdicts depend only on outcome classes that are stable under TCP coalescing");
@@ -271,6 +271,77 @@ pub fn run(ctx: &Ctx) -> ! {
     }
     rep.section("request-side", s);
     eprintln!("  elapsed {:?}", rep.start.elapsed());
+
+    // ---------------- (1c) a request object that was serialised once, then changed, then sent
+    let mut s = Stats::new();
+    {
+        let steps: [&str; 5] = ["header.request_id", "header.version", "header.operation", "add attribute", "set payload"];
+        let mut cases: Vec<(ClientKind, usize)> = vec![];
+        for kind in kinds {
+            for i in 0..steps.len() {
+                cases.push((kind, i));
+            }
+        }
+        for p in par_range(ctx.threads, cases.len() as u64, 1, || (Stats::new(), runtime()), |acc, i| {
+            let (st, rt) = acc;
+            let (kind, step) = cases[i as usize];
+            let case = json!({"section": "encode-mutate-send", "client": kind.name(), "mutation_after_to_bytes": steps[step]});
+            st.evaluations += 1;
+            st.traces += 1;
+            st.states.insert(fnv(case.to_string().as_bytes()) | 7 << 40);
+            st.nontrivial.insert(fnv(case.to_string().as_bytes()));
+            // expected: the same mutations on a fresh model, never serialised before
+            let mut m = reqs[1].clone();
+            let mut req = build_ipp(&m);
+            let _ = req.to_bytes();
+            let mut pay: Vec<u8> = vec![];
+            match step {
+                0 => {
+                    req.header_mut().request_id = 0x0a0b0c0d;
+                    m.request_id = 0x0a0b0c0d;
+                }
+                1 => {
+                    req.header_mut().version = IppVersion(0x0202);
+                    m.version = 0x0202;
+                }
+                2 => {
+                    req.header_mut().operation_or_status = 0x4002;
+                    m.code = 0x4002;
+                }
+                3 => {
+                    req.attributes_mut().add(DelimiterTag::JobAttributes, IppAttribute::new("copies", IppValue::Integer(3)));
+                    m.groups.push(r1::Group { tag: r1::TAG_JOB, attrs: vec![r1::Attr { name: b"copies".to_vec(), values: vec![r1::Val::Int(3)] }] });
+                }
+                _ => {
+                    pay = b"late-payload".to_vec();
+                    *req.payload_mut() = IppPayload::new(std::io::Cursor::new(pay.clone()));
+                }
+            }
+            let mut expect = m.canon();
+            expect.data = pay;
+            let (result, ex, _extra, _port, _) = exchange(kind, rt, "http", "/ipp", &Config::default(), req, Script::ok(ok_body.clone()));
+            let verdict: Result<(), String> = (|| {
+                let ex = ex.as_ref().ok_or("no connection")?;
+                let dec = r1::decode(&ex.body).map_err(|e| format!("body malformed: {}", e.0))?;
+                if let Some(d) = expect.diff(&dec.canon()) {
+                    return Err(format!("the request on the wire is not the request as it was when send() was called: {}", d));
+                }
+                result.as_ref().map_err(|e| format!("send failed: {}", &e[..e.len().min(160)]))?;
+                Ok(())
+            })();
+            match verdict {
+                Ok(()) => st.outcome("current-state-sent"),
+                Err(d) => {
+                    st.outcome("stale-state-sent");
+                    st.violate(format!("{}:stale-request-after-{}", kind.name(), steps[step].replace(' ', "-")), format!("{}: {}", case, d), case.clone());
+                }
+            }
+            st.sample(1, || case.clone());
+        }) {
+            s.merge(p.0);
+        }
+    }
+    rep.section("encode-mutate-send", s);
 
     // ---------------- (2) response side: framings x write plans x trailing data
     let mut jobs: Vec<(usize, usize, usize, Framing, Plan)> = vec![]; // (client, response, trailing, framing, plan)
